@@ -313,6 +313,15 @@ def main():
         b = re.search(r"self\.dump_dir_entry\(buffer,\s*dirent\)\?;", body)
         if a and b:
             flush_first = "some true" if a.start() < b.start() else "some false"
+    # may_be_stack: readable or writable
+    mbs = "none"
+    mm = re.search(r"fn may_be_stack\(mapping: Option<&MappingInfo>\) -> bool \{(.*?)\n    \}\n", pdsrc, re.S)
+    if mm:
+        body = re.sub(r"\s+", "", re.sub(r"//[^\n]*", "", mm.group(1)))
+        if "intersects(MMPermissions::READ|MMPermissions::WRITE)" in body and "contains(" not in body:
+            mbs = "some true"
+        elif "permissions" in body:
+            mbs = "some false"
     out = []
     out.append("/- GENERATED by gen/extract.py from /repo's source — do not edit. -/")
     out.append("namespace Mdw.Src\n")
@@ -349,6 +358,7 @@ def main():
     out.append(f"\n/-- a thread's name is the whole content of its comm file with trailing white space trimmed, nothing else (none = not recognisable) -/\ndef threadNameTrimEndOnly : Option Bool := {name_trim}")
     out.append(f"\n/-- the wait-and-reinject loop of `suspend_thread` is an unbounded `loop` left through SIGSTOP or an error only (none = not recognisable) -/\ndef attachLoopUnbounded : Option Bool := {attach_loop}")
     out.append(f"\n/-- `write_to_file` writes the pending image bytes before it hands the entry to `dump_dir_entry` (none = not recognisable) -/\ndef flushBeforeEntry : Option Bool := {flush_first}")
+    out.append(f"\n/-- `may_be_stack` accepts a mapping that is readable or writable (`intersects`) (none = not recognisable) -/\ndef mayBeStackIntersects : Option Bool := {mbs}")
     out.append("\nend Mdw.Src\n")
     text = "\n".join(out)
     os.makedirs(os.path.dirname(OUT), exist_ok=True)
